@@ -274,6 +274,8 @@ class Expander(object):
 
     def _exp(self, e, at, depth, stack):
         X = lambda x: self._exp(x, at, depth, stack)   # noqa: E731
+        if e is None:
+            return ('const', 'None')
         if isinstance(e, ast.Constant):
             return ('const', repr(e.value))
         if isinstance(e, ast.Name):
@@ -509,10 +511,18 @@ def term_alts(term):
 def fmt_term(t, depth=0):
     if depth > 6:
         return '...'
+    if isinstance(t, frozenset):
+        return '{' + ' | '.join(sorted(fmt_term(x, depth+1)
+                                        for x in t)) + '}'
     if not isinstance(t, tuple) or not t:
         return str(t)
     k = t[0]
     F = lambda x: fmt_term(x, depth+1)   # noqa: E731
+    if not isinstance(k, str):
+        return '(' + ', '.join(F(x) for x in t) + ')'
+    if k == 'comp':
+        gens = '; '.join(f'for {g[0]} in {F(g[1])}' for g in t[3])
+        return f'[{F(t[2])} {gens}]'
     if k == 'param':
         return f'<param {t[1]}>'
     if k == 'const':
@@ -545,5 +555,6 @@ def fmt_term(t, depth=0):
         return f'<rec {t[1]}>'
     if k == 'var':
         return f'<var {t[1]}>'
-    return k + '(' + ', '.join(F(x) if isinstance(x, tuple) else str(x)
-                               for x in t[1:]) + ')'
+    return k + '(' + ', '.join(
+        F(x) if isinstance(x, (tuple, frozenset)) else str(x)
+        for x in t[1:]) + ')'
